@@ -160,7 +160,7 @@ def meta():
             r = res.get(key, {})
             v = ver.get(key, {})
             m["changes"].append(dict(patch="patch%s.diff" % it["n"], demo="demo%s.sh" % it["n"], breaks_property=prop, what=it["what"], needs=it["needs"],
-                                     missed_at_first=it["missed"], strengthened=it.get("strengthened"), note=it.get("note"), not_claimed=it.get("not_claimed", False),
+                                     missed_at_first=it["missed"], strengthened=it.get("strengthened"), note=it.get("note"), not_claimed=it.get("not_claimed", False), neutralised_by_later_fix=it.get("neutralised", False),
                                      confirmed=v,
                                      ran="tools/run_seeded.py <patch> --checks %s --copy  (patch applied to a scratch worktree of /repo HEAD, checks run with VERIF_REPO pointing there; same as git -C /repo apply / check / git -C /repo checkout -- .)" % it["checks"],
                                      caught_by={c: x["keys"][:6] for c, x in r.items() if x["exit"] == 1},
